@@ -127,6 +127,8 @@ def mk_fn(f, variant=None):
         g = lambda x: x[0]
     elif n == 'snd':
         g = lambda x: x[1]
+    elif n == 'fstmodc':
+        g = lambda x: x[0] % c
     elif n == 'noneIf':
         g = lambda x: None if x == c else x
     elif n == 'failIf':
